@@ -328,7 +328,7 @@ pub fn run(ctx: &Ctx) -> CheckOutput {
 		}
 	});
 	// ---- memory
-	let n = if thorough { 300_000 } else { 20_000 };
+	let n = if thorough { 1_000_000 } else { 40_000 };
 	let mut mem_jobs: Vec<MemCase> = vec![];
 	for src in F::STREAMING {
 		for detect in [false, true] {
